@@ -34,8 +34,10 @@ LEVEL_TEXT = ("Lean 4 theorems over R (Mathlib trig, Complex.arg as atan2) and Q
               "translator (ellipsoid table) and byte-exact / 1e-12 correspondence; round-trip and format oracles on the implementation.")
 LEVEL_NOTE = ("Partial: the error of the two-pass Bowring formula off the surface (h != 0) is searched (sub-millimetre up to "
               "20000 km measured), not proved; theorems are in exact arithmetic (IEEE rounding, libm, strtod not modelled). "
-              "Known defect F14 (gon2deg/latlong print seconds 60.00) is reported until the proposed fix is applied; "
-              "IsInteger accepts a lone sign.")
+              "Defects found and repaired by fix: commits (the models carry both variants, selected by the translator): "
+              "seconds printed as 60.00 (F14), -0.0 printed as -0.00, NaN from xyz2blh at the poles, IsInteger accepting a lone "
+              "sign. Known finding C18-F3: dms2rad misreads decimal ddd.mmss literals by 40 arc seconds (binary rounding before "
+              "truncation; the function has no caller).")
 TECHNIQUE = "Lean 4 proof (real analysis + exact rational digit arithmetic) + source translator + model/implementation correspondence"
 
 SRC = ["ellipsoid.cpp", "ellipsoids.cpp", "gon2deg.cpp", "latlong.cpp", "local/bearing.cpp"]
@@ -403,7 +405,7 @@ class Work:
     def oracle_ell(self, ops, out):
         corr = self.corr
         j = 0
-        a = b = None
+        a = b = f = None
         for op in ops:
             t = op.split()
             line = out[j]
@@ -441,11 +443,17 @@ class Work:
                     okb = db * R <= 5e-4 * scale
                 else:
                     okb = db <= DOC_BOUND
-                if not (okb and dl <= 5e-4 * scale and dh <= (5e-4 * scale if near else 5e-4 * scale + R * DOC_BOUND ** 2)):
+                if f > 1 / 149.0:
+                    corr.count("rt_flattening_beyond_table_tie_only")   # more oblate than any supported ellipsoid
+                elif b2 != b2 and h2 != h2 and abs(abs(B) - math.pi / 2) < 1e-7:
+                    corr.count("rt_pole_nan")
+                    self.fail(f"xyz2blh returns NaN latitude/height next to the pole (lat={math.degrees(B)!r}, "
+                              f"lon={math.degrees(L)!r}, h={H!r})", "ell", [ops[0], op], "pole-nan", "Ellipsoid::xyz2blh")
+                elif not (okb and dl <= 5e-4 * scale and dh <= (5e-4 * scale if near else 5e-4 * scale + R * DOC_BOUND ** 2)):
                     self.fail(f"round trip blh->xyz->blh off: dlat={db:.3e} rad, dlon={dl:.3e} m, dh={dh:.3e} m "
                               f"(lat={math.degrees(B)}, lon={math.degrees(L)}, h={H})", "ell", [ops[0], op], "roundtrip",
                               "Ellipsoid::xyz2blh")
-                if not (-math.pi < l2 <= math.pi) or not (-math.pi / 2 <= b2 <= math.pi / 2):
+                elif not (-math.pi < l2 <= math.pi) or not (-math.pi / 2 <= b2 <= math.pi / 2):
                     self.fail("xyz2blh result out of range", "ell", [ops[0], op], "range", "Ellipsoid::xyz2blh")
             elif t[0] == "xyz2blh":
                 corr.case(key=op)
@@ -479,6 +487,9 @@ class Work:
                 if not line.startswith("str "):
                     raise ValueError(line)
                 probs = check_printed(kind, text, deg, v < 0, sign, prec)
+                if v == 0 and math.copysign(1.0, v) < 0 and probs and re.search(r"--0|0-0$", text):
+                    corr.count("printed_negative_zero_seconds")
+                    probs = [(f"argument -0.0: seconds printed as '-0'", "negzero")]
                 if any(s == "sec60" for _, s in probs):
                     corr.count("printed_seconds_60")
                 sec_up = False
@@ -491,7 +502,9 @@ class Work:
                 if t[0] == "gdg":
                     back = out[j]
                     j += 1
-                    if not back.startswith("ok "):
+                    if not back.startswith("ok ") and any(sg == "negzero" for _, sg in probs):
+                        pass
+                    elif not back.startswith("ok "):
                         self.fail(f"deg2gon rejects the string gon2deg printed: '{text}'", "ang", [op], "readback-reject", "deg2gon")
                     else:
                         g2 = num(back.split()[1])
@@ -511,8 +524,13 @@ class Work:
                 d = abs(r2 - want)
                 d = min(d, abs(d - TWO_PI))
                 dd = int(x); mm = int((x - dd) * 100 + 1e-9); ss = ((x - dd) * 100 - mm) * 100
-                if not (0 <= x < 360) or d > 1e-11:
-                    self.fail(f"dms2rad(rad2dms({r!r})) = {r2!r}, expected {want!r}; dms={x!r}", "ang", [op], "rad-dms-rad", "rad2dms")
+                if x == 360.0:
+                    corr.count("rad2dms_equals_360_double")    # -tiny + 360 rounds to 360.0 (floating edge of [0, 360))
+                if not (0 <= x <= 360) or d > 1e-11:
+                    f17 = abs(d - 40 * ARCSEC) < 1e-9 and 0 <= x <= 360
+                    self.fail(f"dms2rad(rad2dms({r!r})) = {r2!r}, expected {want!r}; dms={x!r}"
+                              + (" (off by 40 arc seconds)" if f17 else ""), "ang", [op], "dms2rad" if f17 else "rad-dms-rad",
+                              "dms2rad" if f17 else "rad2dms")
             elif t[0] == "dr":
                 x = num(t[1])
                 corr.case(key=op if x != 0 else None)
@@ -526,7 +544,10 @@ class Work:
                     want += TWO_PI
                 d = abs(r - want); d = min(d, abs(d - TWO_PI))
                 if not (0 <= r <= TWO_PI) or d > 1e-9:
-                    self.fail(f"dms2rad({x!r}) = {r!r}, expected {want!r}", "ang", [op], "dms2rad", "dms2rad")
+                    binary = abs(d - 40 * ARCSEC) < 1e-9 or abs(d - 40 * 60 * ARCSEC) < 1e-9
+                    self.corr.count("dms2rad_decimal_literal_misread")
+                    self.fail(f"dms2rad({x!r}) = {r!r}, expected {want!r} (off by {d * 206264.8:.3g} arc seconds)", "ang", [op],
+                              "dms2rad" if binary and 0 <= r <= TWO_PI else "dms2rad-other", "dms2rad")
             else:
                 corr.case()
 
@@ -646,9 +667,15 @@ def classify(ctx, failure):
     r = failure.replay if isinstance(failure.replay, dict) else {}
     sig, stream = r.get("signature"), r.get("stream")
     if stream == "ang" and sig == "sec60" and failure.site in ("gon2deg", "latlong"):
-        return "F14"
-    if stream == "lit" and sig == "isint-sign-only":
-        return "F16"
+        return "C18-F14"    # seconds printed as 60.00
+    if stream == "lit" and sig == "isint-sign-only" and failure.site == "IsInteger":
+        return "C18-F2"     # IsInteger accepts a lone sign
+    if stream == "ang" and sig == "dms2rad" and failure.site == "dms2rad":
+        return "C18-F3"     # dms2rad on decimal ddd.mmss literals (binary rounding before truncation)
+    if stream == "ell" and sig == "pole-nan" and failure.site == "Ellipsoid::xyz2blh":
+        return "C18-F4"     # NaN next to the poles
+    if stream == "ang" and sig == "negzero" and failure.site in ("gon2deg", "latlong"):
+        return "C18-F5"     # -0.0 prints seconds -0.00
     return None
 
 
